@@ -26,7 +26,9 @@ func tokMarkers(out []string, t *token.Token) []string {
 // order; everything else in the output is a constant, at most one per absent token.
 func H_C15_Kind() {
 	k := ParamInt("kind")
+	synthMaxList = 3
 	s := BuildSynth(k, 3)
+	synthMaxList = 2
 	name := KindNames[k]
 	var want []string
 	absent := 0
@@ -107,6 +109,38 @@ func H_C15_Kind() {
 	}
 	if consts > absent {
 		Fail("C15:more-constants-than-absent-tokens", name)
+	}
+	// separators interleave with list items: between two consecutive items of a list
+	// that has a separator slot there is a separator token or a substituted lexeme
+	for i := 0; i+1 < len(s.Slots); i++ {
+		sl := s.Slots[i]
+		if sl.Kind != SVertexList || s.Slots[i+1].Kind != STokenList {
+			continue
+		}
+		for j := 0; j+1 < len(sl.VL); j++ {
+			from, to := -1, -1
+			for ci, c := range w.list {
+				if string(c) == "[n"+itoa(i)+"."+itoa(j)+"]" {
+					from = ci
+				}
+				if string(c) == "[fn"+itoa(i)+"."+itoa(j+1)+"]" {
+					to = ci
+				}
+			}
+			if from < 0 || to < 0 || to < from {
+				continue // reported above
+			}
+			sep := false
+			for ci := from + 1; ci < to; ci++ {
+				c := w.list[ci]
+				if !(len(c) == 1 && c[0] == ' ') {
+					sep = true
+				}
+			}
+			if !sep {
+				Fail("C15:list-items-not-separated", name+" "+sl.Name)
+			}
+		}
 	}
 	Cover("printed")
 }
